@@ -354,6 +354,26 @@ def check_jpl_pairs(case):
                 if got2.frame.name != dst:
                     raise Violation("jpl-orbit-frame", f"get_orbit({names[a]}).copy(frame={dst}) is in {got2.frame.name}")
                 compare(got2.base, ref, scale, f"get_orbit({names[a]}) seen from {dst}")
+    if with_pck and 301 in K.bodies and 399 in K.bodies and 3 in K.bodies:
+        # the Moon held in an element form (its elements depend on the GM of the frame's central body - different
+        # for Earth and EarthBarycenter once the PCK files are configured), sent from one centre to the other
+        forms = ["keplerian", "equinoctial", "keplerian_mean", "keplerian_eccentric"]
+        form = forms[case["mjd"] % len(forms)]
+        moon = jpl.get_orbit(names[301], dt)                  # given about the segment's centre (EarthBarycenter)
+        for start, dst in ((names[K.parent[301]], names[399]), (names[399], names[K.parent[301]])):
+            held = moon.copy(frame=start).copy(form=form) if moon.frame.name != start else moon.copy(form=form)
+            moved = held.copy(frame=dst)
+            if moved.form.name != form or moved.frame.name != dst:
+                raise Violation("jpl-orbit-frame", f"Moon in {form} form sent to {dst} comes back as {moved.form.name} in {moved.frame.name}")
+            ib = next(b for b in K.bodies if names[b] == dst)
+            ref = ssb[301] - ssb[ib]
+            got = np.asarray(moved.copy(form="cartesian").base, float)
+            dp = float(np.linalg.norm(got[:3] - ref[:3])) / float(np.linalg.norm(ref[:3]))
+            dv = float(np.linalg.norm(got[3:] - ref[3:])) / float(np.linalg.norm(ref[3:]))
+            worst = max(worst, dp / 1e-9, dv / 1e-9)
+            if not (dp <= 1e-9 and dv <= 1e-9):
+                raise Violation("jpl-form-across-centres", f"Moon held in {form} form about {start}, sent to {dst}: read back in "
+                                f"cartesian it is {dp:.3g} (position) / {dv:.3g} (velocity) relative from the chained segments")
     # either direction
     for (a, b), v in zero.items():
         w = zero[b, a]
